@@ -1015,8 +1015,10 @@ class Merge3Merger:
                     # copy *source*; for an add what matters is the entry
                     # THIS may already have at the new path, which has to
                     # be merged with OTHER's rather than overwritten.
-                    this_path = _mod_tree.find_previous_path(
-                        self.other_tree, self.this_tree, paths3[1]
+                    # (Look the path itself up: find_previous_path would
+                    # follow the copy back to its source.)
+                    this_path = (
+                        paths3[1] if self.this_tree.is_versioned(paths3[1]) else None
                     )
                     paths3 = (None, paths3[1], this_path)
                     if this_path is None:
